@@ -40,7 +40,7 @@ SHARDS = {"quick": 4, "thorough": 16}
 RULE = (
     "(a) complete enumeration, per catalogue operation (17 operations), of (k-th call-out, exception class in {RuntimeError, TypeError, "
     "KeyboardInterrupt, custom BaseException}) for every k up to the dry-run count; (b) Hypothesis histories of 3..20 operations from a "
-    "29-operation alphabet. After each, 15 probes. Non-trivial (a) = the fault fired while jaxtyping held transient state (a context "
+    "30-operation alphabet. After each, 15 probes. Non-trivial (a) = the fault fired while jaxtyping held transient state (a context "
     "pushed, the flatten-mode flag set or a leaf label set; read from the private storage at the moment of the fault, for classification "
     "only); non-trivial (b) = history containing a failing or raising check or a decoration sharing an annotation object; distinct by "
     "(operation, k, exception) resp. operation list."
@@ -683,18 +683,38 @@ def h_forward_reference_early_call():
         g.pop("VF12_LATER", None)
 
 
+def h_address_reuse():
+    """Inside one context: a temporary array passes a check and is freed; another array that happens to be allocated at the same
+    address (same id()) is checked against the same annotation object: the verdict is about the new array."""
+    ann = Float32[np.ndarray, "vfr1 3"]
+    with jaxtyped("context"):
+        tmp = np.zeros((4, 3), dtype="float32")
+        assert isinstance(tmp, ann)
+        addr = id(tmp)
+        del tmp
+        keep = []
+        for _ in range(300):
+            other = np.zeros((7,), dtype="int64")
+            if id(other) == addr:
+                if isinstance(other, ann):
+                    raise Violation("probe", {"history": ["address-reuse"]},
+                                    "inside one context, an int64 array of shape (7,) allocated at the address of a freed array that had passed Float32[ndarray, 'vfr1 3'] was accepted by that annotation")
+                break
+            keep.append(other)
+
+
 HISTORY_OPS = {
     "check-pass": h_check_pass, "check-fail": h_check_fail, "check-raise": h_check_raise, "toplevel-check": h_toplevel_check,
     "pytree-pass": h_pytree_pass, "pytree-fail": h_pytree_fail, "pytree-q-misuse": h_pytree_q_misuse, "pytree-unbound-composite": h_pytree_unbound_composite,
     "decorate-shared-typeguard": h_decorate_shared_tg, "decorate-shared-beartype": h_decorate_shared_bt, "decorate-shared-old": h_decorate_shared_old,
     "generator-old-unpickled": h_generator_old_unpickled, "generator-old-inner-outer": h_generator_old_inner_outer, "generator-old-pytree": h_generator_old_pytree, "generator-new-shared": h_generator_new_shared, "generator-old-fresh": h_generator_old_fresh, "generator-old-shared": h_generator_old_shared,
     "resubscribe": h_resubscribe, "pickle": h_pickle, "hook": h_hook, "hook-exception": h_hook_exception, "config-roundtrip": h_config_roundtrip,
-    "generator-none-suspended": h_generator_none_suspended, "forward-reference-early-call": h_forward_reference_early_call,
+    "address-reuse": h_address_reuse, "generator-none-suspended": h_generator_none_suspended, "forward-reference-early-call": h_forward_reference_early_call,
     "call-ok": h_call_ok, "call-ill": h_call_ill, "call-raises": h_call_raises, "thread-activity": h_thread_activity, "name-format": h_name_format,
 }
 KNOWN_EXCLUDED = {"generator-old-shared"}
 INTERESTING = {"check-fail", "check-raise", "pytree-fail", "pytree-q-misuse", "pytree-unbound-composite", "decorate-shared-typeguard", "decorate-shared-beartype",
-               "decorate-shared-old", "generator-new-shared", "call-ill", "call-raises", "hook-exception", "generator-none-suspended", "forward-reference-early-call"}
+               "decorate-shared-old", "generator-new-shared", "call-ill", "call-raises", "hook-exception", "generator-none-suspended", "forward-reference-early-call", "address-reuse"}
 
 
 def reset_shared():
